@@ -196,7 +196,9 @@ def r4(ctx, r):
     rets = common.returns(ic)
     fin = [e for e in rets if '".."' in show(e.node) or "\"..\"" in show(e.node)]
     ok = ok and len(fin) == 1 and "!=" in show(fin[0].node) and "*it" in show(fin[0].node)
-    empt = [b for b in ic.blocks.values() if b.cond is not None and "rel.empty()" in show(b.cond)]
+    # the emptiness test is on the variable that holds the relative path, whatever it is called
+    rd = rel[0]["d"] if len(rel) == 1 else None
+    empt = [b for b in ic.blocks.values() if b.cond is not None and any(x.get("k") == "mcall" and last(x.get("callee", "")) == "empty" and strip_casts(x.get("obj") or {}).get("d") == rd for x in walk(b.cond))]
     ok = ok and len(empt) == 1
     r.expect(ok, ic, None, "component-wise containment", "isContained is not `rel = target.lexically_relative(base); !rel.empty() && first component != \"..\"`", okdesc="isContained: lexically_relative + first component != '..'")
     deny = ("starts_with", "rfind", "compare", "find", "substr")
